@@ -31,7 +31,9 @@ from ..engine import (
     stmt_of,
     walk_no_nested,
 )
+from ..normal import module_constants, nfunc
 from ..report import Report
+from .. import pat
 from . import _orch
 from ._orch import ORCH, EXECUTE
 
@@ -101,6 +103,8 @@ def run(repo: Repo, R: Report) -> None:
             trace_blocks.append(n)
     if len(trace_blocks) < 4:
         raise AnalysisError("execute(): trace-guarded blocks not recognised")
+    run_state = RUN_STATE | _run_state_by_role(ex, trace_blocks)
+    R.note(f"run state of execute (by role): {sorted(run_state - RUN_STATE)}") if hasattr(R, "note") else None
     for blk in trace_blocks:
         body_mod = ast.Module(body=blk.body, type_ignores=[])
         stored = set()
@@ -108,10 +112,10 @@ def run(repo: Repo, R: Report) -> None:
             for x in ast.walk(st):
                 if isinstance(x, ast.Name) and isinstance(x.ctx, (ast.Store, ast.Del)):
                     stored.add(x.id)
-        bad_rebind = stored & RUN_STATE
+        bad_rebind = stored & run_state
         muts = []
         for st in blk.body:
-            muts.extend(mutation_sites(st, RUN_STATE, include_nested=True))
+            muts.extend(mutation_sites(st, run_state, include_nested=True))
         what = ""
         if bad_rebind:
             what = f"run state `{sorted(bad_rebind)[0]}` is rebound inside code that only runs with a trace attached"
@@ -165,13 +169,7 @@ def run(repo: Repo, R: Report) -> None:
                     R.violation(r_cont, rel, qn, norm(n if isinstance(n, ast.For) else n.iter)[:90], "iteration over an arbitrary live object inside trace code", getattr(n, "lineno", f.lineno))
 
     # ------------------------------------------------------------------ D1b serialisation sinks on SAFE data
-    from . import c06
-
-    R.rule_prefix = "C10-D1b/"
-    try:
-        c06._json_safety_rules(repo, R, [])
-    finally:
-        R.rule_prefix = ""
+    _json_safe_producers(repo, R)
     r_sink = R.rule("C10-D1b-sinks", "uncontained json/deepcopy/asdict sinks in SER construction are applied only to the sanitised preprocessor metadata", 2)
     mk = repo.func(ORCH, O + "_make_ser_record")
     for c in calls_in(mk):
@@ -201,16 +199,29 @@ def run(repo: Repo, R: Report) -> None:
             readers = [qualname_of(f) for f in [n for n in cls.body if isinstance(n, FuncNode)] if any(isinstance(x, ast.Attribute) and dotted_name(x) == attr and isinstance(x.ctx, ast.Load) for x in ast.walk(f))]
             R.violation(r_hist, ORCH, cls_name, norm(site)[:90], f"`{attr}` accumulates across execute() calls and is read in {sorted(set(readers))[:3]}: what a run records (or retains) depends on what the same orchestrator ran before", site.lineno)
         R.ok(r_hist, ORCH, cls_name, f"accumulating instance attributes: {len(grown)}", "none" if not grown else "")
-    # module-level mutable state in the orchestrator module
-    mod_state = [st for st in omod.tree.body if isinstance(st, (ast.Assign, ast.AnnAssign)) and isinstance(getattr(st, "value", None), (ast.Dict, ast.List, ast.Set, ast.Call)) and not (isinstance(st.value, ast.Call) and call_attr(st.value) in ("TypeVar", "getLogger", "frozenset", "tuple"))]
+    # module-level mutable state in the orchestrator module: a binding is history only when something can
+    # change it after import (mutation, rebinding, or the object escaping to code that could); a literal table
+    # that is only read is a constant, wherever it is written
+    consts = module_constants(omod)
+    mod_state = [st for st in omod.tree.body if isinstance(st, (ast.Assign, ast.AnnAssign)) and isinstance(getattr(st, "value", None), (ast.Dict, ast.List, ast.Set, ast.Call, ast.ListComp, ast.DictComp, ast.SetComp)) and not (isinstance(st.value, ast.Call) and call_attr(st.value) in ("TypeVar", "getLogger", "frozenset", "tuple", "object", "NewType", "compile"))]
     for st in mod_state:
         nm = dotted_name(st.targets[0] if isinstance(st, ast.Assign) else st.target)
-        used = [f for _m, qn, f in repo.all_functions() if _m.rel == ORCH and any(isinstance(x, ast.Name) and x.id == nm for x in ast.walk(f))]
-        R.check(not used, r_hist, ORCH, "<module>", norm(st)[:80], f"module-level mutable `{nm}` is used by the orchestrator: records can depend on earlier runs in the process", st.lineno)
+        if nm is None:
+            continue
+        uses = [(qn, x) for _m, qn, f in repo.all_functions() if _m.rel == ORCH for x in ast.walk(f) if isinstance(x, ast.Name) and x.id == nm]
+        frozen = nm in consts and _immutable_leaves(st.value)
+        escaping = [(qn, x) for qn, x in uses if not _read_only_use(x)]
+        ok = not uses or (frozen and not escaping)
+        where = ""
+        if not ok:
+            qn, x = (escaping or uses)[0]
+            where = f" (`{norm(stmt_of(x))[:60]}` in {qn})"
+        R.check(ok, r_hist, ORCH, "<module>", norm(st)[:80], f"module-level mutable `{nm}` is used by the orchestrator and is not a read-only literal table{where}: records can depend on earlier runs in the process", st.lineno)
     # ids of SER / pipeline_end come from this call (shared with C06-D3): _make_ser_record reads no self attribute
     self_reads = sorted({dotted_name(x) for x in ast.walk(mk) if isinstance(x, ast.Attribute) and isinstance(x.value, ast.Name) and x.value.id == "self" and isinstance(x.ctx, ast.Load) and not isinstance(getattr(x, "_parent", None), ast.Call)} - {None})
     self_reads = [a for a in self_reads if not any(isinstance(c.func, ast.Attribute) and dotted_name(c.func) == a for c in calls_in(mk))]
     R.check(not self_reads, r_hist, ORCH, O + "_make_ser_record", "SER construction reads no instance state", f"SER fields are computed from persistent instance state {self_reads}", mk.lineno)
+    _no_identity_in_stream(repo, R, ex, helper_fns, drivers)
     # the caller-owned canonical spec is not mutated (pipeline_id would depend on history)
     from . import c04
 
@@ -269,3 +280,195 @@ def _guarded_reiterable(node: ast.AST, var: str) -> bool:
                         return True
         child = a
     return False
+
+
+# ---------------------------------------------------------------------------------------------------------
+# D2: read-only literal tables
+# ---------------------------------------------------------------------------------------------------------
+READ_METHODS = {"get", "keys", "values", "items", "copy", "index", "count", "__contains__", "__getitem__", "__len__", "__iter__"}
+READ_BUILTINS = {"len", "sorted", "list", "dict", "set", "tuple", "frozenset", "isinstance", "bool", "any", "all", "min", "max", "sum", "enumerate", "iter", "reversed", "zip", "repr", "str"}
+
+
+def _immutable_leaves(e: ast.AST, top: bool = True) -> bool:
+    """A literal container (one level of mutability only: the container itself) whose elements cannot be changed
+    through a reference obtained by reading it."""
+    if isinstance(e, ast.Constant):
+        return True
+    if isinstance(e, ast.UnaryOp) and isinstance(e.operand, ast.Constant):
+        return True
+    if isinstance(e, ast.Tuple):
+        return all(_immutable_leaves(x, False) for x in e.elts)
+    if isinstance(e, ast.Call) and dotted_name(e.func) in ("frozenset", "tuple") and len(e.args) == 1:
+        return _immutable_leaves(e.args[0], True)
+    if not top:
+        return False
+    if isinstance(e, (ast.List, ast.Set)):
+        return all(_immutable_leaves(x, False) for x in e.elts)
+    if isinstance(e, ast.Dict):
+        return all(k is not None and _immutable_leaves(k, False) and _immutable_leaves(v, False) for k, v in zip(e.keys, e.values))
+    return False
+
+
+def _read_only_use(x: ast.Name) -> bool:
+    """Is this occurrence of a module-level name a read that neither changes the object nor lets it escape
+    (receiver of a read method, subscript load, membership / comparison operand, iteration source, argument of a
+    builtin that only reads, spread into a fresh container)?"""
+    if not isinstance(x.ctx, ast.Load):
+        return False
+    p = getattr(x, "_parent", None)
+    if isinstance(p, ast.Attribute) and p.value is x:
+        pp = getattr(p, "_parent", None)
+        return isinstance(pp, ast.Call) and pp.func is p and p.attr in READ_METHODS
+    if isinstance(p, ast.Subscript) and p.value is x:
+        return isinstance(p.ctx, ast.Load)
+    if isinstance(p, ast.Compare):
+        return True
+    if isinstance(p, (ast.For, ast.comprehension)) and p.iter is x:
+        return True
+    if isinstance(p, ast.Call) and x in p.args and isinstance(p.func, ast.Name) and p.func.id in READ_BUILTINS:
+        return True
+    if isinstance(p, ast.Starred):
+        return isinstance(getattr(p, "_parent", None), (ast.List, ast.Tuple, ast.Set))
+    if isinstance(p, ast.Dict) and x in p.values and p.keys[p.values.index(x)] is None:
+        return True  # {**TABLE, ...}
+    if isinstance(p, (ast.BoolOp, ast.UnaryOp, ast.If, ast.While, ast.IfExp)) and (not isinstance(p, ast.IfExp) or p.test is x) and (not isinstance(p, ast.BoolOp)):
+        return True  # truth test
+    return False
+
+
+# ---------------------------------------------------------------------------------------------------------
+# D1b: producers of what the traced run serialises uncontained are JSON-safe by construction
+# ---------------------------------------------------------------------------------------------------------
+SEM = "semantiva/metadata/semantic_id.py"
+GRAPH = "semantiva/pipeline/graph_builder.py"
+SANITISERS = {"float", "int", "str", "bool", "len", "repr", "_json_safe_sample", "serialize_json_safe", "safe_repr", "sha256_bytes", "_sha256_json", "hexdigest"}
+
+
+def _leaf_safe(fn: ast.AST, e: ast.AST, depth: int = 0) -> bool:
+    """Is the value of *e* JSON-safe by construction (sanitiser table, literals, containers of those)?  Locals are
+    looked up by whatever name they have (all their assignments must be safe)."""
+    if isinstance(e, (ast.Constant, ast.JoinedStr)):
+        return True
+    if isinstance(e, ast.Attribute) and e.attr in ("__name__", "__qualname__", "__module__"):
+        return True
+    if isinstance(e, ast.Call):
+        a = call_attr(e)
+        if a in SANITISERS:
+            return True
+        if a in ("list", "sorted", "tuple") and e.args:
+            return _leaf_safe(fn, e.args[0], depth)
+        return False
+    if isinstance(e, ast.Dict):
+        return all(k is not None and isinstance(k, ast.Constant) and _leaf_safe(fn, v, depth) for k, v in zip(e.keys, e.values))
+    if isinstance(e, (ast.List, ast.Tuple)):
+        return all(_leaf_safe(fn, v, depth) for v in e.elts)
+    if isinstance(e, ast.ListComp):
+        return _leaf_safe(fn, e.elt, depth)
+    if isinstance(e, ast.IfExp):
+        return _leaf_safe(fn, e.body, depth) and _leaf_safe(fn, e.orelse, depth)
+    if isinstance(e, ast.Name) and depth < 4:
+        vals = assigned_value(fn, e.id)
+        return bool(vals) and all(_leaf_safe(fn, v, depth + 1) for v in vals)
+    return False
+
+
+def _value_forms(fn: ast.AST, e: ast.AST, depth: int = 0) -> List[ast.AST]:
+    """The expressions *e* can stand for: itself, both arms of a conditional, every assignment of a local."""
+    if isinstance(e, ast.IfExp):
+        return _value_forms(fn, e.body, depth) + _value_forms(fn, e.orelse, depth)
+    if isinstance(e, ast.Name) and depth < 4:
+        vals = assigned_value(fn, e.id)
+        if vals:
+            return [f for v in vals for f in _value_forms(fn, v, depth + 1)]
+    return [e]
+
+
+def _json_safe_producers(repo: Repo, R: Report) -> None:
+    r = R.rule("C10-D1b-json-safe-producers", "what the traced run serialises outside a containing try (preprocessor metadata in SER construction, the canonical spec handed to pipeline_start / compute_pipeline_id) is JSON-safe by construction: every leaf of a sweep variable's domain signature passes a sanitiser, and a canonical node is appended only after it has been json-dumped (a failure there fails traced and untraced runs alike, before execute)", 6)
+    vds = nfunc(repo, SEM, "variable_domain_signature", keep=tuple(SANITISERS))
+    param = vds.args.args[0].arg if vds.args.args else ""
+    n_leaves = 0
+    for ret in [n for n in walk_no_nested(vds) if isinstance(n, ast.Return) and n.value is not None]:
+        for form in _value_forms(vds, ret.value):
+            if not isinstance(form, ast.Dict):
+                n_leaves += 1
+                R.check(_leaf_safe(vds, form), r, SEM, "variable_domain_signature", f"returned: {norm(form)[:70]}", "the domain signature is not built from sanitised leaves: a raw configuration value can reach json.dumps in SER construction (the traced run raises, the untraced run does not)", getattr(form, "lineno", vds.lineno))
+                continue
+            items = list(zip(form.keys, form.values))
+            # later `sig[key] = value` stores into the returned local
+            if isinstance(ret.value, ast.Name):
+                for n in walk_no_nested(vds):
+                    if isinstance(n, ast.Assign) and len(n.targets) == 1 and isinstance(n.targets[0], ast.Subscript) and dotted_name(n.targets[0].value) == ret.value.id:
+                        items.append((n.targets[0].slice, n.value))
+            for k, v in items:
+                kname = k.value if isinstance(k, ast.Constant) else "?"
+                # getattr(spec, "key", None) of a from_context variable: the key is a mapping key of the YAML (str)
+                if isinstance(v, ast.Call) and call_attr(v) == "getattr" and kname == "key":
+                    continue
+                n_leaves += 1
+                R.check(k is not None and _leaf_safe(vds, v), r, SEM, "variable_domain_signature", f"{kname!r}: {norm(v)[:70]}",
+                        "a raw configuration value (e.g. a YAML date in a sweep sequence) is embedded unsanitised in metadata that is hashed/serialised uncontained in SER construction and attached to pipeline_start: json.dumps raises TypeError in the traced run only", getattr(v, "lineno", vds.lineno))
+    if n_leaves == 0:
+        raise AnalysisError("variable_domain_signature: no returned value recognised")
+
+    # canonical nodes: appended only after having been json-dumped
+    bcs = nfunc(repo, GRAPH, "build_canonical_spec")
+    node_lists: Set[str] = set()
+    for ret in [n for n in walk_no_nested(bcs) if isinstance(n, ast.Return) and n.value is not None]:
+        first = ret.value.elts[0] if isinstance(ret.value, ast.Tuple) and ret.value.elts else ret.value
+        for form in _value_forms(bcs, first):
+            if isinstance(form, ast.Dict):
+                for k, v in zip(form.keys, form.values):
+                    if isinstance(k, ast.Constant) and k.value == "nodes":
+                        if isinstance(v, ast.Name):
+                            node_lists.add(v.id)
+                        else:
+                            raise AnalysisError(f"build_canonical_spec: `nodes` is built by `{norm(v)[:60]}` (unknown shape)")
+    if not node_lists:
+        raise AnalysisError("build_canonical_spec: the returned canonical mapping / its `nodes` list was not recognised")
+    g = CFG(bcs)
+    grow = [c for c in calls_in(bcs) if isinstance(c.func, ast.Attribute) and c.func.attr in GROWERS and isinstance(c.func.value, ast.Name) and c.func.value.id in node_lists]
+    grow_stmts = [n for n in walk_no_nested(bcs) if isinstance(n, ast.AugAssign) and isinstance(n.target, ast.Name) and n.target.id in node_lists]
+    if not grow and not grow_stmts:
+        raise AnalysisError("build_canonical_spec: no statement adds to the canonical node list")
+    for st in grow_stmts:
+        R.violation(r, GRAPH, "build_canonical_spec", norm(st)[:90], "canonical nodes are added in a way the analysis cannot relate to a preceding json.dumps of the node", st.lineno)
+    for c in grow:
+        if c.func.attr != "append" or len(c.args) != 1 or not isinstance(c.args[0], ast.Name):
+            R.violation(r, GRAPH, "build_canonical_spec", norm(c)[:90], "canonical nodes are added in a way the analysis cannot relate to a preceding json.dumps of the node", c.lineno)
+            continue
+        elem = c.args[0].id
+        # the element and the objects it is a shallow copy of
+        base = {elem}
+        for v in assigned_value(bcs, elem):
+            if isinstance(v, ast.Name):
+                base.add(v.id)
+            elif isinstance(v, ast.Call) and call_attr(v) in ("dict", "copy", "deepcopy") and (v.args or isinstance(v.func, ast.Attribute)):
+                src = v.args[0] if v.args else v.func.value
+                if isinstance(src, ast.Name):
+                    base.add(src.id)
+            elif isinstance(v, ast.Dict):
+                for k, vv in zip(v.keys, v.values):
+                    if k is None and isinstance(vv, ast.Name):
+                        base.add(vv.id)
+        dump_nodes = {nid for d in calls_in(bcs) if call_name(d) == "json.dumps" and d.args and isinstance(d.args[0], ast.Name) and d.args[0].id in base for nid in g.nodes_for(stmt_of(d))}
+        targets = set(g.nodes_for(stmt_of(c)))
+        loop = next((a for a in ancestors(c) if isinstance(a, (ast.For, ast.While))), None)
+        starts = g.nodes_for(loop) if loop is not None else [g.entry]
+        blocked_edges = {(d, "n") for d in dump_nodes}
+
+        def uncovered(from_nodes) -> bool:
+            seen = g.reach(list(from_nodes), blocked_edges=blocked_edges)
+            return any(t in seen for t in targets)
+
+        bad = ""
+        if not dump_nodes or uncovered(starts):
+            bad = f"`{norm(c)[:50]}` can be reached without a successful json.dumps of the node"
+        else:
+            # whatever is stored into the node after the dump must itself be safe
+            for n in walk_no_nested(bcs):
+                if isinstance(n, ast.Assign) and len(n.targets) == 1 and isinstance(n.targets[0], ast.Subscript) and dotted_name(n.targets[0].value) in base:
+                    if not _leaf_safe(bcs, n.value) and uncovered(g.nodes_for(n)) :
+                        bad = f"`{norm(n)[:60]}` stores an unsanitised value into the node after (or without) the json.dumps that vouches for it"
+                        break
+        R.check(not bad, r, GRAPH, "build_canonical_spec", f"a canonical node is json-dumped before it is appended ({norm(c)[:40]})", bad + ": canonical nodes are no longer serialised when built, so a non-JSON parameter is only discovered when the traced run hashes / writes the spec (the untraced run succeeds)", c.lineno)
